@@ -1156,3 +1156,295 @@ Proof.
       destruct (vario false start count (mkAcc m [] [] [])) as [ok a']. simpl in F. subst ok.
       eexists. eexists. eexists. reflexivity.
 Qed.
+
+(* ---- frame: a write changes no cell outside the requested region --------------------------------- *)
+Lemma nth_repeat_same : forall {A} (d : A) n j, nth j (repeat d n) d = d.
+Proof. induction n; destruct j; simpl; auto. Qed.
+
+Lemma nth_firstn_lt : forall {A} (l : list A) i j d, (j < i)%nat -> nth j (firstn i l) d = nth j l d.
+Proof. induction l; destruct i, j; simpl; intros; auto; try lia. apply IHl. lia. Qed.
+
+Lemma nth_skipn' : forall {A} (l : list A) i j d, nth j (skipn i l) d = nth (i + j) l d.
+Proof. induction l; destruct i; simpl; intros; auto. destruct j; auto. Qed.
+
+Lemma write_cells_frame : forall st i vals j,
+  (j < Z.to_nat i)%nat \/ (Z.to_nat i + length vals <= j)%nat ->
+  nth j (write_cells st i vals) Undef = nth j st Undef.
+Proof.
+  intros st i vals j H. unfold write_cells.
+  set (k := Z.to_nat i) in *. set (n := length vals).
+  assert (L1 : length (firstn k st) = Nat.min k (length st)) by apply firstn_length.
+  destruct H as [H | H].
+  - destruct (Nat.lt_ge_cases j (length st)).
+    + rewrite app_nth1 by lia. apply nth_firstn_lt. auto.
+    + rewrite app_nth2 by lia. rewrite app_nth1 by (rewrite repeat_length; lia).
+      rewrite nth_repeat_same. symmetry. apply nth_overflow. lia.
+  - rewrite app_nth2 by lia. rewrite app_nth2 by (rewrite repeat_length; lia).
+    rewrite app_nth2 by (rewrite repeat_length; fold n; lia).
+    rewrite nth_skipn'. rewrite repeat_length. fold n. f_equal. lia.
+Qed.
+
+Lemma write_cells_nonempty : forall st i vals, st <> [] -> write_cells st i vals <> [].
+Proof.
+  intros st i vals H C. apply (f_equal (@length _)) in C. unfold write_cells in C.
+  rewrite !app_length, firstn_length, repeat_length, skipn_length in C.
+  destruct st as [| c st]; [congruence |]. cbn [length] in C.
+  set (k := Z.to_nat i) in *. set (n := length vals) in *. set (l := length st) in *. lia.
+Qed.
+
+(** hdf_xdr_NCvdata writing into an element that already has data: one seek + one Hwrite, no fill *)
+Lemma xdr_vdata_write_existing : forall m wh c vals, m_store m <> [] -> 0 < m_esz m ->
+  xdr_vdata m true wh c vals =
+    Some (set_store m (write_cells (m_store m) (wh / m_esz m) vals) (m_numrecs m), [TWrite wh (c * m_esz m)], []).
+Proof.
+  intros m wh c vals Hs He. unfold xdr_vdata. cbv zeta.
+  assert (El : 0 < elem_length m).
+  { unfold elem_length. destruct (m_store m); [congruence | simpl length; lia]. }
+  replace (elem_length m <=? 0) with false by (symmetry; apply Z.leb_gt; auto). cbn [andb].
+  unfold vdata_lead_fill, vdata_trail_fill, truth.
+  replace (elem_length m <=? 0) with false by (symmetry; apply Z.leb_gt; auto).
+  simpl. reflexivity.
+Qed.
+
+Lemma varoffset_ext : forall m m' p, m_shape m' = m_shape m -> m_esz m' = m_esz m -> varoffset m' p = varoffset m p.
+Proof. intros. unfold varoffset, dsizes. rewrite H, H0. reflexivity. Qed.
+
+Definition outside (lo n : Z) (j : nat) : Prop := (j < Z.to_nat lo)%nat \/ (Z.to_nat lo + Z.to_nat n <= j)%nat.
+
+(** the ripple counter, whether it completes or fails on the way, changes no cell outside the blocks at the
+    positions NCcoordck accepted *)
+Lemma vario_loop_frame : forall n ps a j,
+  is_recvar (acc_m a) = false -> 0 < m_esz (acc_m a) -> m_store (acc_m a) <> [] ->
+  (forall p, In p ps -> any2 coordck_bad p (m_shape (acc_m a)) = false ->
+             outside (varoffset (acc_m a) p / m_esz (acc_m a)) n j) ->
+  nth j (m_store (acc_m (snd (vario_loop true n ps a)))) Undef = nth j (m_store (acc_m a)) Undef.
+Proof.
+  induction ps as [| p0 rest IH]; intros a j Hr He Hs Hout; auto.
+  cbn [vario_loop]. rewrite coordck_fixed by auto.
+  destruct (any2 coordck_bad p0 (m_shape (acc_m a))) eqn:B0; auto.
+  rewrite xdr_vdata_write_existing by auto.
+  rewrite IH; cbn [acc_m set_store m_store m_shape m_esz]; auto.
+  - apply write_cells_frame. destruct (Hout p0 (or_introl eq_refl) B0) as [A | A]; [left; auto | right].
+    rewrite firstn_length. lia.
+  - apply write_cells_nonempty. auto.
+  - intros p Hp Bp. rewrite (varoffset_ext (acc_m a)) by reflexivity. apply Hout; auto. right. auto.
+Qed.
+
+Lemma lin_acc_nonneg : forall shape c acc, 0 <= acc -> Forall (fun d => 0 <= d) shape -> Forall (fun x => 0 <= x) c ->
+  0 <= lin_acc shape c acc.
+Proof.
+  induction shape; destruct c; simpl; intros; auto.
+  inversion H0; inversion H1; subst. apply IHshape; auto. nia.
+Qed.
+
+Lemma vario_plan_struct : forall m start edges ps n,
+  length start = length (m_shape m) -> length edges = length (m_shape m) ->
+  ((if is_recvar m then 1 else 0) < length (m_shape m))%nat ->
+  Forall (fun o => 0 <= o) start -> Forall (fun d => 0 <= d) (m_shape m) ->
+  vario_plan m start edges = Some (ps, n) ->
+  0 <= n /\ forall p, In p ps -> length p = length (m_shape m).
+Proof.
+  intros m start edges ps n Hs He Hb Hpos Hsh H.
+  unfold vario_plan in H. destruct (vcmaxcontig m start edges) as [k|] eqn:V; [| discriminate].
+  destruct (vcmaxcontig_sound m start edges k Hs He Hb Hpos V)
+    as [pre [dk [post [spre [sk [epre [ek [S1 [S2 [S3 [L1 [L2 [L3 [Hek Hek2]]]]]]]]]]]]]].
+  assert (F1 : firstn k start = spre) by (rewrite S2; apply firstn_exact; auto).
+  assert (F2 : skipn k start = sk :: zeros post) by (rewrite S2; apply skipn_exact; auto).
+  assert (F3 : firstn k edges = epre) by (rewrite S3; apply firstn_exact; auto).
+  assert (F4 : skipn k edges = ek :: post) by (rewrite S3; apply skipn_exact; auto).
+  assert (Hpost : Forall (fun d => 0 <= d) post).
+  { rewrite S1 in Hsh. apply Forall_app in Hsh. destruct Hsh as [_ F]. inversion F; auto. }
+  assert (P : ps = map (fun p => p ++ sk :: zeros post) (odometer spre epre) /\ n = ek * prod post).
+  { inversion H. rewrite F4. split; [| unfold prod; reflexivity].
+    destruct k; rewrite ?F1, ?F2, ?F3; auto.
+    simpl in *. destruct spre, epre; try discriminate. simpl. rewrite F2. reflexivity. }
+  destruct P as [-> ->]. split.
+  - pose proof (prod_nonneg post Hpost). nia.
+  - intros p Hp. apply in_map_iff in Hp. destruct Hp as [p' [<- Hp']].
+    rewrite (app_length p'), (odometer_len spre epre p') by (auto; lia).
+    rewrite S1, app_length. simpl. unfold zeros. rewrite map_length. lia.
+Qed.
+
+(** NCvario writing into a fixed-size dataset that already has storage -- whether the request is valid or
+    reaches outside the shape, whether the call returns 0 or -1 -- changes no cell outside the requested region *)
+Lemma vario_frame : forall a start edges j,
+  is_recvar (acc_m a) = false -> (0 < length (m_shape (acc_m a)))%nat ->
+  0 < m_esz (acc_m a) -> m_store (acc_m a) <> [] ->
+  length start = length (m_shape (acc_m a)) -> length edges = length (m_shape (acc_m a)) ->
+  Forall (fun d => 0 <= d) (m_shape (acc_m a)) ->
+  ~ In (Z.of_nat j * m_esz (acc_m a)) (map (varoffset (acc_m a)) (slab_cells start (ones start) edges)) ->
+  nth j (m_store (acc_m (snd (vario true start edges a)))) Undef = nth j (m_store (acc_m a)) Undef.
+Proof.
+  intros a start edges j Hr Hn He Hst Hs Hc Hsh Hnot.
+  unfold vario. destruct (m_shape (acc_m a)) as [| d0 dr] eqn:Sh. simpl in Hn; lia.
+  rewrite <- Sh in *. rewrite coordck_fixed by auto.
+  destruct (any2 coordck_bad start (m_shape (acc_m a))) eqn:B; auto.
+  cbn [acc_m]. rewrite Hr. cbn [andb].
+  destruct (vario_plan (acc_m a) start edges) as [[ps n] |] eqn:P; auto.
+  destruct (n =? 0); auto.
+  pose proof (any2_false_nonneg _ _ Hs B) as Hnn.
+  assert (Hb : ((if is_recvar (acc_m a) then 1 else 0) < length (m_shape (acc_m a)))%nat) by (rewrite Hr; lia).
+  destruct (vario_plan_struct _ _ _ _ _ Hs Hc Hb Hnn Hsh P) as [Hn0 Hlen].
+  pose proof (vario_plan_correct_lemma _ _ _ _ _ Hs Hc Hb Hnn Hsh P) as PC.
+  set (a1 := mkAcc (acc_m a) (acc_tr a ++ []) (acc_cells a) (acc_vals a)).
+  assert (FR : nth j (m_store (acc_m (snd (vario_loop true n ps a1)))) Undef = nth j (m_store (acc_m a)) Undef).
+  { apply (vario_loop_frame n ps a1 j); auto.
+    intros p Hp Bp. cbn [a1 acc_m].
+    rewrite varoffset_rowmajor_lemma by (apply Hlen; auto).
+    replace (m_esz (acc_m a) * lin (m_shape (acc_m a)) p / m_esz (acc_m a)) with (lin (m_shape (acc_m a)) p)
+      by (rewrite Z.mul_comm, Z.div_mul by lia; reflexivity).
+    assert (L0 : 0 <= lin (m_shape (acc_m a)) p).
+    { apply lin_acc_nonneg; auto. lia. apply (any2_false_nonneg p (m_shape (acc_m a))); auto. }
+    unfold outside.
+    destruct (Nat.lt_ge_cases j (Z.to_nat (lin (m_shape (acc_m a)) p))); [left; auto |].
+    destruct (Nat.le_gt_cases (Z.to_nat (lin (m_shape (acc_m a)) p) + Z.to_nat n) j); [right; auto |].
+    exfalso. apply Hnot. rewrite <- PC. apply in_flat_map. exists p. split; auto.
+    unfold block. apply in_map_iff. exists (Z.of_nat j - lin (m_shape (acc_m a)) p). split.
+    - rewrite varoffset_rowmajor_lemma by (apply Hlen; auto). lia.
+    - unfold zseq. apply in_zrange1. lia. }
+  destruct (vario_loop true n ps a1) as [ok a2]. cbn [snd] in FR.
+  destruct ok; cbn [snd acc_m]; auto.
+  destruct (m_numrecs (acc_m a2) <? hd 0 start + hd 0 edges); cbn [acc_m set_store m_store]; auto.
+Qed.
+
+Definition same_var (m m' : mstate) : Prop :=
+  m_shape m' = m_shape m /\ m_esz m' = m_esz m /\ (m_store m <> [] -> m_store m' <> []).
+
+Lemma vario_loop_inv : forall n ps a, is_recvar (acc_m a) = false -> 0 < m_esz (acc_m a) -> m_store (acc_m a) <> [] ->
+  same_var (acc_m a) (acc_m (snd (vario_loop true n ps a))).
+Proof.
+  induction ps as [| p0 rest IH]; intros a Hr He Hs. repeat split; auto.
+  cbn [vario_loop]. rewrite coordck_fixed by auto.
+  destruct (any2 coordck_bad p0 (m_shape (acc_m a))). repeat split; auto.
+  rewrite xdr_vdata_write_existing by auto.
+  destruct (IH (mkAcc (set_store (acc_m a) (write_cells (m_store (acc_m a)) (varoffset (acc_m a) p0 / m_esz (acc_m a))
+                                                      (firstn (Z.to_nat n) (acc_vals a))) (m_numrecs (acc_m a)))
+                      (acc_tr a ++ [] ++ [TWrite (varoffset (acc_m a) p0) (n * m_esz (acc_m a))])
+                      (acc_cells a ++ []) (skipn (Z.to_nat n) (acc_vals a)))) as [A [B C]];
+    cbn [acc_m set_store m_shape m_esz m_store]; auto.
+  apply write_cells_nonempty; auto.
+  cbn [acc_m set_store m_shape m_esz m_store] in *.
+  repeat split; auto. intros _. apply C. apply write_cells_nonempty; auto.
+Qed.
+
+Lemma vario_inv : forall start edges a,
+  is_recvar (acc_m a) = false -> (0 < length (m_shape (acc_m a)))%nat ->
+  0 < m_esz (acc_m a) -> m_store (acc_m a) <> [] ->
+  same_var (acc_m a) (acc_m (snd (vario true start edges a))).
+Proof.
+  intros start edges a Hr Hn He Hs. unfold vario.
+  destruct (m_shape (acc_m a)) as [| d0 dr] eqn:Sh. simpl in Hn; lia.
+  rewrite coordck_fixed by auto.
+  destruct (any2 coordck_bad start (m_shape (acc_m a))). repeat split; auto.
+  cbn [acc_m]. rewrite Hr. cbn [andb].
+  destruct (vario_plan (acc_m a) start edges) as [[ps n] |]. 2: repeat split; auto.
+  destruct (n =? 0). repeat split; auto.
+  pose proof (vario_loop_inv n ps (mkAcc (acc_m a) (acc_tr a ++ []) (acc_cells a) (acc_vals a)) Hr He Hs) as L.
+  destruct (vario_loop true n ps (mkAcc (acc_m a) (acc_tr a ++ []) (acc_cells a) (acc_vals a))) as [ok a2].
+  cbn [snd acc_m] in *. destruct ok; cbn [snd acc_m]; auto.
+  destruct (m_numrecs (acc_m a2) <? hd 0 start + hd 0 edges); cbn [acc_m set_store m_shape m_esz m_store]; auto.
+Qed.
+
+(** NCgenio writing: no cell outside the sub-slabs of the visited positions changes *)
+Lemma genio_loop_frame : forall io positions a j,
+  is_recvar (acc_m a) = false -> (0 < length (m_shape (acc_m a)))%nat ->
+  0 < m_esz (acc_m a) -> m_store (acc_m a) <> [] ->
+  length io = length (m_shape (acc_m a)) -> Forall (fun d => 0 <= d) (m_shape (acc_m a)) ->
+  (forall p, In p positions -> length p = length (m_shape (acc_m a)) /\
+     ~ In (Z.of_nat j * m_esz (acc_m a)) (map (varoffset (acc_m a)) (slab_cells p (ones p) io))) ->
+  nth j (m_store (acc_m (snd (genio_loop true io positions a)))) Undef = nth j (m_store (acc_m a)) Undef.
+Proof.
+  induction positions as [| p0 rest IH]; intros a j Hr Hn He Hs Hio Hsh Hout; auto.
+  cbn [genio_loop].
+  destruct (Hout p0 (or_introl eq_refl)) as [Lp Np].
+  pose proof (vario_frame a p0 io j Hr Hn He Hs Lp Hio Hsh Np) as F.
+  destruct (vario_inv p0 io a Hr Hn He Hs) as [I1 [I2 I3]].
+  destruct (vario true p0 io a) as [ok a1]. cbn [snd] in *.
+  destruct ok; cbn [snd]; auto.
+  rewrite IH; auto; try (rewrite ?I1, ?I2; auto).
+  - rewrite (is_recvar_shape _ _ I1). auto.
+  - intros p Hp. destruct (Hout p (or_intror Hp)) as [A B]. split; auto.
+    intro C. apply B. erewrite map_ext. exact C. intros c. symmetry. apply varoffset_ext; auto.
+Qed.
+
+Lemma slab_ones_single : forall p, slab_cells p (ones p) (repeat 1 (length p)) = [p].
+Proof. induction p; simpl; auto. rewrite IHp. reflexivity. Qed.
+
+Lemma existsb_false_Forall : forall (f : Z -> bool) l, existsb f l = false -> Forall (fun x => f x = false) l.
+Proof. induction l; simpl; intros; constructor; apply orb_false_elim in H; tauto. Qed.
+
+(** NCgenio writing into a fixed-size dataset that has storage: no cell outside the strided slab changes,
+    whatever the outcome of the call *)
+Lemma genio_frame : forall a start count stride j,
+  is_recvar (acc_m a) = false -> (0 < length (m_shape (acc_m a)))%nat ->
+  0 < m_esz (acc_m a) -> m_store (acc_m a) <> [] ->
+  length start = length (m_shape (acc_m a)) -> length count = length (m_shape (acc_m a)) ->
+  length stride = length (m_shape (acc_m a)) -> Forall (fun d => 0 <= d) (m_shape (acc_m a)) ->
+  ~ In (Z.of_nat j * m_esz (acc_m a)) (map (varoffset (acc_m a)) (slab_cells start stride count)) ->
+  nth j (m_store (acc_m (snd (genio true start count stride a)))) Undef = nth j (m_store (acc_m a)) Undef.
+Proof.
+  intros a start count stride j Hr Hn He Hst Hs Hc Ht Hsh Hnot.
+  unfold genio. destruct (m_shape (acc_m a)) as [| d0 dr] eqn:Sh. simpl in Hn; lia.
+  rewrite <- Sh in *.
+  destruct (existsb (fun t => truth (genio_bad_stride t)) stride) eqn:X1; auto.
+  destruct (existsb (fun c => c <? 0) count) eqn:X2; auto.
+  destruct (existsb (fun c => c =? 0) count) eqn:X3; auto.
+  assert (Ft : Forall (fun t => 1 <= t) stride).
+  { apply existsb_false_Forall in X1. eapply Forall_impl; [| exact X1]. intros t Ht1. cbv beta in Ht1.
+    unfold truth, genio_bad_stride in Ht1. destruct (t <? 1) eqn:E; [discriminate | apply Z.ltb_ge in E; lia]. }
+  assert (Fc : Forall (fun c => 1 <= c) count).
+  { apply existsb_false_Forall in X2. apply existsb_false_Forall in X3.
+    rewrite Forall_forall in *. intros c Hin. specialize (X2 c Hin). specialize (X3 c Hin). cbv beta in *.
+    apply Z.ltb_ge in X2. apply Z.eqb_neq in X3. lia. }
+  destruct (snoc_split start) as [sl [sx Es]]. { intro; subst; simpl in *; lia. }
+  destruct (snoc_split count) as [cl [cx Ec]]. { intro; subst; simpl in *; lia. }
+  destruct (snoc_split stride) as [tl [tx Et]]. { intro; subst; simpl in *; lia. }
+  subst start count stride. rewrite !app_length in *. cbn [length] in *.
+  rewrite !last_last. replace (Nat.pred (length sl + 1)) with (length sl) by lia.
+  rewrite unit_last_spec. rewrite map3_snoc by lia.
+  apply Forall_app in Fc. destruct Fc as [Fcl Fcx]. apply Forall_app in Ft. destruct Ft as [Ftl Ftx].
+  apply genio_loop_frame; auto.
+  { destruct (tx =? 1); rewrite ?app_length, ?repeat_length; simpl; lia. }
+  destruct (tx =? 1) eqn:U.
+  - apply Z.eqb_eq in U. subst tx.
+    rewrite firstn_exact by (apply map3_length; lia).
+    rewrite cartesian_snoc, genio_positions by (auto; lia).
+    intros p Hp. apply in_map_iff in Hp. destruct Hp as [p' [<- Hp']].
+    assert (Lp : length p' = length sl) by (apply (slab_cells_len sl tl cl p'); auto; lia).
+    split. rewrite app_length. simpl. lia.
+    intro C. apply Hnot. apply in_map_iff in C. destruct C as [c [Ec Hc']]. apply in_map_iff. exists c. split; auto.
+    rewrite slab_app by lia. apply in_flat_map. exists p'. split; auto.
+    replace (ones (p' ++ [sx])) with (ones p' ++ [1]) in Hc' by (unfold ones; rewrite map_app; reflexivity).
+    rewrite <- Lp in Hc'. rewrite slab_app in Hc' by (unfold ones; rewrite ?map_length, ?repeat_length; lia).
+    rewrite slab_ones_single in Hc'. simpl in Hc'. rewrite app_nil_r in Hc'. exact Hc'.
+  - rewrite <- map3_snoc by lia.
+    rewrite genio_positions by (rewrite ?app_length; simpl; auto; try lia; apply Forall_app; auto).
+    intros p Hp.
+    assert (Lp : length p = (length sl + 1)%nat).
+    { rewrite (slab_cells_len (sl ++ [sx]) (tl ++ [tx]) (cl ++ [cx]) p); rewrite ?app_length; simpl; auto; lia. }
+    split. lia.
+    rewrite <- Lp. rewrite slab_ones_single. simpl. intros [C | []]. apply Hnot.
+    rewrite <- C. apply in_map. auto.
+Qed.
+
+(** SDwritedata on a fixed-size dataset that has storage (i.e. after its first write), any stride mode, valid or
+    not, returning SUCCEED or FAIL: no cell outside the requested region is modified *)
+Lemma sd_write_frame : forall m us start stride count vals j,
+  is_recvar m = false -> (0 < length (m_shape m))%nat -> 0 < m_esz m -> m_store m <> [] ->
+  length start = length (m_shape m) -> length count = length (m_shape m) ->
+  (us = true -> length stride = length (m_shape m)) -> Forall (fun d => 0 <= d) (m_shape m) ->
+  ~ In (Z.of_nat j * m_esz m) (map (varoffset m) (slab_cells start (if us then stride else ones start) count)) ->
+  nth j (m_store (fst (sd_write m us start stride count vals))) Undef = nth j (m_store m) Undef.
+Proof.
+  intros m us start stride count vals j Hr Hn He Hst Hs Hc Hu Hsh Hnot. unfold sd_write.
+  set (a := mkAcc m [] [] (map Val vals)).
+  destruct us; cbn [andb].
+  - specialize (Hu eq_refl). destruct (forallb (fun t => t =? 1) stride) eqn:A1; cbn [negb].
+    + rewrite (forallb_ones stride start A1) in Hnot by lia.
+      pose proof (vario_frame a start count j Hr Hn He Hst Hs Hc Hsh Hnot) as F.
+      destruct (vario true start count a) as [ok a']. exact F.
+    + pose proof (genio_frame a start count stride j Hr Hn He Hst Hs Hc Hu Hsh Hnot) as F.
+      destruct (genio true start count stride a) as [ok a']. exact F.
+  - pose proof (vario_frame a start count j Hr Hn He Hst Hs Hc Hsh Hnot) as F.
+    destruct (vario true start count a) as [ok a']. exact F.
+Qed.
